@@ -1,5 +1,5 @@
 """C10 - whatever a decoder accepts is a well-formed, re-encodable value of the type."""
-from harness import core, codec, universe as U, implrun as I, gen
+from harness import core, codec, universe as U, implrun as I, gen, tlvtree
 from harness.coqio import cbytes
 from harness.gen import base_desc
 from harness.props.c08 import mutants
@@ -56,7 +56,7 @@ def constrained_specs():
 
 def run(ctx):
     ctx.rule = ('inputs = valid BER/CER/DER encodings of T, encodings of neighbouring types (member dropped, retagged, element duplicated), and '
-                'mutants of both; only accepted inputs count (acceptance rate in the distribution); checked on acceptance: independent '
+                'mutants of both and single structural edits (member added/removed/repeated/swapped, node emptied, length form switched); only accepted inputs count (acceptance rate in the distribution); checked on acceptance: independent '
                 "well-formedness, the library's encoder accepts the value, decode(encode(value)) is abstractly equal; plus constrained types "
                 '(value range, size of OCTET STRING, size of SEQUENCE OF/SET OF); time types with 13 damaged or non-canonical texts under each codec; REAL with 200..255-octet exponents')
     search_only = getattr(ctx, 'search_only', False)
@@ -69,6 +69,14 @@ def run(ctx):
         if e[0] == 'ok':
             inputs.append(e[1])
             inputs += mutants(ctx.rng, e[1], 4)
+            if len(e[1]) <= 300:
+                # single structural edits: a member added, removed, repeated, swapped; a node emptied; a length form switched
+                try:
+                    eds = tlvtree.structural_edits(tlvtree.parse(e[1]))
+                except ValueError:
+                    eds = []
+                for _, b in ctx.rng.sample(eds, min(len(eds), 10)):
+                    inputs.append(b); ctx.stats['structural edits'] += 1
         inputs += neighbours(ctx, c)
         for data in inputs:
             d = I.run_decode(cdc, data, asn1Spec=c.spec)
@@ -97,6 +105,7 @@ def run(ctx):
                     if fid is None and cdc == 'CER' and _junk_in_tagged_any(c.T, a):
                         fid = 'F61'
                     if fid is None and cdc == 'BER' and b'\x80' in r[1] and _has_f01_shape(c.T): fid = 'F01'
+                    if fid is None and cdc == 'CER' and _obj_has_f01_shape(d[1]): fid = 'F01'
                 except Exception:
                     pass
                 ctx.prop_fail('decode(encode(decoded value)) differs from the decoded value', dict(m, reencoded=r[1].hex()), finding=fid)
@@ -267,6 +276,20 @@ def _has_f01_shape(T):
     if k in ('seqof', 'setof'): return _has_f01_shape(T[1])
     if k == 'choice': return any(_has_f01_shape(a) for a in T[1])
     return False
+
+
+def _obj_has_f01_shape(obj, depth=0):
+    """the decoded OBJECT holds an EXPLICIT tag directly over BOOLEAN/INTEGER/ENUMERATED/NULL/OID/REAL somewhere - members a
+    member-less SEQUENCE/SET type took in without a schema carry their own tags, the type descriptor does not show them"""
+    if obj is None or obj is base.noValue or depth > 8:
+        return False
+    if isinstance(obj, (univ.SequenceOfAndSetOfBase, univ.SequenceAndSetBase, univ.Choice)):
+        cv = obj._componentValues
+        if cv is base.noValue:
+            return False
+        items = cv.values() if isinstance(cv, dict) else cv
+        return any(_obj_has_f01_shape(c, depth + 1) for c in items)
+    return isinstance(obj, (univ.Integer, univ.Null, univ.ObjectIdentifier, univ.Real)) and len(obj.tagSet) >= 2
 
 
 def _has_f24_shape(T):
